@@ -84,9 +84,13 @@ func ImplRun(src string, o SemOpts) (out SemRun) {
 			cls = "budget"
 			out.Budget = true
 		}
-		g, _ := ParseSX(ev.VerifGlobalsSX())
+		gs := ""
+		if cls != "budget" { // a run cut off by the yield / memory budget is skipped: do not dump (possibly huge) globals
+			g, _ := ParseSX(ev.VerifGlobalsSX())
+			gs = g.String()
+		}
 		out.Phases = append(out.Phases, SemPhase{Class: cls, Trace: append([]string(nil), plat.Trace[mark:]...), Yields: y.n,
-			Globals: g.String(), Tests: fmt.Sprintf("%d/%d", ev.TestInfo.TotalCount(), ev.TestInfo.FailCount())})
+			Globals: gs, Tests: fmt.Sprintf("%d/%d", ev.TestInfo.TotalCount(), ev.TestInfo.FailCount())})
 		mark = len(plat.Trace)
 		return true
 	}
